@@ -1,0 +1,74 @@
+//go:build verif
+
+// Contracts for package parse, checked by /verif/govc (see /verif/DESIGN.md).  Comment-only file.
+
+package parse
+
+//@ macro durationT() RType = global("durationType")
+//@ macro isNumericKind(k int) bool = isSignedKind(k) || (isUnsignedKind(k) && k != Uintptr) || k == Float32 || k == Float64 || k == Complex64 || k == Complex128
+
+//@ extern func time.ParseDuration(s) (d, err)
+//@   pure
+//@ func parse.Complex64(s) (c, err)
+//@   flag unproved
+//@ func parse.Complex128(s) (c, err)
+//@   flag unproved
+
+// parseNumber: for every integer kind the pointee of the result is exactly the literal's mathematical
+// value, and a literal outside the kind's range is an error (never wrapped, truncated or saturated).
+//@ func parse.parseNumber(strVal, numberType) (v, err)
+//@   props C15
+//@   safety C16
+//@   flag record parseNumber
+//@   requires numberType != nil
+//@   requires isNumericKind(kind(numberType))
+//@   ensures C15_result_is_pointer_to_kind: err == nil ==> valid(v) && kind(vtype(v)) == Ptr && canInterface(v)
+//@   ensures C15_signed_exact: err == nil && isSignedKind(kind(numberType)) && numberType != durationT() ==>
+//@        isIntLit(strVal) && cell(vptr(v), "int") == intval(strVal) && kind(elem(vtype(v))) == kind(numberType)
+//@        && sLo(kindBits(kind(numberType))) <= intval(strVal) && intval(strVal) <= sHi(kindBits(kind(numberType)))
+//@   ensures C15_signed_out_of_range_rejected: isSignedKind(kind(numberType)) && numberType != durationT()
+//@        && (!isIntLit(strVal) || intval(strVal) < sLo(kindBits(kind(numberType))) || intval(strVal) > sHi(kindBits(kind(numberType)))) ==> err != nil
+//@   ensures C15_signed_in_range_accepted: isSignedKind(kind(numberType)) && numberType != durationT() && isIntLit(strVal)
+//@        && sLo(kindBits(kind(numberType))) <= intval(strVal) && intval(strVal) <= sHi(kindBits(kind(numberType))) ==> err == nil
+//@   ensures C15_unsigned_exact: err == nil && isUnsignedKind(kind(numberType)) ==>
+//@        isUintLit(strVal) && cell(vptr(v), "int") == uintval(strVal) && kind(elem(vtype(v))) == kind(numberType)
+//@        && uintval(strVal) <= uHi(kindBits(kind(numberType)))
+//@   ensures C15_unsigned_out_of_range_rejected: isUnsignedKind(kind(numberType))
+//@        && (!isUintLit(strVal) || uintval(strVal) > uHi(kindBits(kind(numberType)))) ==> err != nil
+//@   ensures C15_unsigned_in_range_accepted: isUnsignedKind(kind(numberType)) && isUintLit(strVal)
+//@        && uintval(strVal) <= uHi(kindBits(kind(numberType))) ==> err == nil
+
+// The generic integral-slice parsers, proved once for a symbolic element width.
+//@ func parse.SignedIntegralSlice(s) (out, err)
+//@   props C15
+//@   safety C16
+//@   loop 0:
+//@     invariant len(out) == splitCount(s, ",") && len(parts) == splitCount(s, ",") && out.arr != parts.arr
+//@     invariant forall x Ref :: {cell(x, "int")} allocT(x) < old(clock) ==> cell(x, "int") == old(cell(x, "int"))
+//@     invariant C15_elements_so_far: forall k int :: {splitPart(s, ",", k)} 0 <= k && k < i ==> isIntLit(trimSpace(splitPart(s, ",", k)))
+//@          && out[k] == intval(trimSpace(splitPart(s, ",", k)))
+//@          && sLo(bitsof("I")) <= out[k] && out[k] <= sHi(bitsof("I"))
+//@     invariant forall k int :: {parts[k]} 0 <= k && k < len(parts) ==> parts[k] == splitPart(s, ",", k)
+//@   ensures C15_elements_exact: err == nil ==> len(out) == splitCount(s, ",") && (forall k int :: {splitPart(s, ",", k)} 0 <= k && k < len(out) ==>
+//@        isIntLit(trimSpace(splitPart(s, ",", k))) && out[k] == intval(trimSpace(splitPart(s, ",", k)))
+//@        && sLo(bitsof("I")) <= out[k] && out[k] <= sHi(bitsof("I")))
+//@   ensures C15_error_returns_nil_slice: err != nil ==> out == nil
+//@   ensures C15_bad_element_rejected: (exists k int :: 0 <= k && k < splitCount(s, ",") && (!isIntLit(trimSpace(splitPart(s, ",", k)))
+//@        || intval(trimSpace(splitPart(s, ",", k))) < sLo(bitsof("I")) || intval(trimSpace(splitPart(s, ",", k))) > sHi(bitsof("I")))) ==> err != nil
+
+//@ func parse.UnsignedIntegralSlice(s) (out, err)
+//@   props C15
+//@   safety C16
+//@   loop 0:
+//@     invariant len(out) == splitCount(s, ",") && len(parts) == splitCount(s, ",") && out.arr != parts.arr
+//@     invariant forall x Ref :: {cell(x, "int")} allocT(x) < old(clock) ==> cell(x, "int") == old(cell(x, "int"))
+//@     invariant C15_elements_so_far: forall k int :: {splitPart(s, ",", k)} 0 <= k && k < i ==> isUintLit(trimSpace(splitPart(s, ",", k)))
+//@          && out[k] == uintval(trimSpace(splitPart(s, ",", k)))
+//@          && out[k] <= uHi(bitsof("I"))
+//@     invariant forall k int :: {parts[k]} 0 <= k && k < len(parts) ==> parts[k] == splitPart(s, ",", k)
+//@   ensures C15_elements_exact: err == nil ==> len(out) == splitCount(s, ",") && (forall k int :: {splitPart(s, ",", k)} 0 <= k && k < len(out) ==>
+//@        isUintLit(trimSpace(splitPart(s, ",", k))) && out[k] == uintval(trimSpace(splitPart(s, ",", k)))
+//@        && out[k] <= uHi(bitsof("I")))
+//@   ensures C15_error_returns_nil_slice: err != nil ==> out == nil
+//@   ensures C15_bad_element_rejected: (exists k int :: 0 <= k && k < splitCount(s, ",") && (!isUintLit(trimSpace(splitPart(s, ",", k)))
+//@        || uintval(trimSpace(splitPart(s, ",", k))) > uHi(bitsof("I")))) ==> err != nil
